@@ -21,7 +21,7 @@ EXPLANATION = (
 )
 TRUSTED = _c02.TRUSTED
 ASSUMPTIONS = _c02.ASSUMPTIONS + ["relative exponents of the components are concrete per obligation (grid); one base exponent per operand symbolic in +-2^30"]
-BUDGET = {'quick': dict(ob_deadline_s=120, total_s=300), 'thorough': dict(ob_deadline_s=900, total_s=2400)}
+BUDGET = {'quick': dict(ob_deadline_s=120, total_s=300), 'thorough': dict(ob_deadline_s=600, total_s=1500)}
 BOUNDS = {'quick': 'component mantissas 1..9 bits (products: 3..5 bits precise, 20x20 abstract), component offsets -3..3, precisions 2..8, all five modes; z**n for n <= 5 with 2..5-bit components',
           'thorough': 'components up to 53 bits with abstract products, larger offsets'}
 
